@@ -27,8 +27,10 @@ RULES = {
     "R5": "calculate_mse = mean((predict_viability_avg - observations)^2)",
     "R6": "similarity: same operand twice in einsum 'ik,jk->ij' after row normalisation; synthetic screen from combinations of mapping entries with the screen's mappings",
     "R7": "evaluate_model labels every prediction column with the index of the chain file it came from, and predicts on the concatenation of the same list",
+    "R8": "the stacking helpers give one prediction row per posterior sample, in holder order, from the like-named predictor",
+    "R9": "the derived screen attributes this property's code relies on (treatment_space_size, treatment_arity) have their documented definitions in ScreenBase and every override",
 }
-MIN = {"R1": 4, "R2": 4, "R3": 5, "R4": 4, "R5": 1, "R6": 3, "R7": 2}
+MIN = {"R1": 4, "R2": 4, "R3": 5, "R4": 4, "R5": 1, "R6": 3, "R7": 2, "R8": 5, "R9": 2}
 TRUSTED = ["numpy reductions: mean(axis=1) over a (experiment, theta) matrix reduces thetas", "np.var is the population variance"]
 TECHNIQUE = "polynomial/reduction normal forms compared against forms written from the statement; writer/reader agreement"
 LEVEL_TEXT = ("Each reported number is an expression over the inputs; its canonical form is compared with the canonical form "
@@ -521,7 +523,18 @@ def r7(ctx):
     ctx.borrow(C10.chain_labels, "R7")
 
 
-RULE_FUNCS = [r1, r2, r3, r4, r5, r6, r7]
+def r8(ctx):
+    """the columns ModelEvaluation receives are one per posterior sample in holder order (C09.R6's clause run here): only then do the
+    chain ids label the right columns"""
+    from . import C09
+    ctx.borrow(C09.r6, "R8")
+
+
+def r_derived(ctx):
+    common.derived_attributes(ctx, "R9", ['treatment_space_size', 'treatment_arity'])
+
+
+RULE_FUNCS = [r1, r2, r3, r4, r5, r6, r7, r8, r_derived]
 
 
 def run(ctx):
